@@ -165,6 +165,9 @@ func PreExpected(duty *spectypes.Duty, share *spectypes.Share) ([]Expected, spec
 
 // VerifySig verifies a BLS signature over 32 bytes under a serialized public key (herumi directly).
 func VerifySig(pk []byte, root [32]byte, sig []byte) bool {
+	// cgo: hand herumi plain byte slices (a slice of an array inside a pointer-carrying struct trips the cgo pointer check)
+	pk, sig = append([]byte{}, pk...), append([]byte{}, sig...)
+	msg := append([]byte{}, root[:]...)
 	var p bls.PublicKey
 	if err := p.Deserialize(pk); err != nil {
 		return false
@@ -173,7 +176,7 @@ func VerifySig(pk []byte, root [32]byte, sig []byte) bool {
 	if err := s.Deserialize(sig); err != nil {
 		return false
 	}
-	return s.VerifyByte(&p, root[:])
+	return s.VerifyByte(&p, msg)
 }
 
 func IsPostDomain(dt phase0.DomainType) bool {
